@@ -93,6 +93,7 @@ type HSpec struct {
 	Fan         int    // the entry frames are written by this many goroutines of the handler through the one ResponseWriter
 	Ctl         string // attach the scenario's shared control object of this kind to the final response (bind, search)
 	Sleep       int    // the handler works for this many virtual seconds before it writes
+	Code        int    // result code of the final response (0 = success)
 }
 
 type logCapture struct {
@@ -310,6 +311,11 @@ func (w *World) handler(route string) gldap.HandlerFunc {
 		}
 		if !sp.NoFinal {
 			fin := finalFor(route, r)
+			if sp.Code != 0 {
+				if sc, ok := fin.(interface{ SetResultCode(int) }); ok {
+					sc.SetResultCode(sp.Code)
+				}
+			}
 			if sp.Ctl != "" {
 				// one control object, created once, attached to the responses of several handlers
 				ctl := w.SharedCtl[sp.Ctl] // created by the scenario body before the server was started
@@ -670,6 +676,10 @@ func reqBytes(op string, id int64) []byte {
 		r = &codec.Req{Op: "add", DN: "cn=u", Attrs2: []codec.Attr{{Type: "mail", Vals: []string{"v"}}}}
 	case "delete":
 		r = &codec.Req{Op: "delete", DN: "cn=u"}
+	case "search-paged":
+		r = &codec.Req{Op: "search", DN: "dc=a", Scope: 2, FilterBER: codec.CtxPrim(7, "cn").Bytes(), Controls: []codec.Control{{Kind: "paging", Size: 25, Cookie: []byte("cookie-" + fmt.Sprint(id)), Expire: -1, Grace: -1, Err: -1}}}
+	case "bind-behera":
+		r = &codec.Req{Op: "bind", Version: 3, DN: "cn=u", Password: "p", Controls: []codec.Control{{Kind: "behera", Expire: 3600 + id, Grace: -1, Err: -1}}}
 	case "whoami":
 		r = &codec.Req{Op: "extended", Name: codec.OIDWhoAmI}
 	case "starttls":
